@@ -247,6 +247,8 @@ function handle(req) {
   return reply;
 }
 
+process.on('unhandledRejection', () => { });
+process.on('uncaughtException', () => { });
 const rl = readline.createInterface({ input: process.stdin, terminal: false, crlfDelay: Infinity });
 rl.on('line', line => {
   if (!line) return;
